@@ -14,6 +14,8 @@ import GoHeader.Oracle.C16
 import GoHeader.Oracle.C09
 import GoHeader.Oracle.C13
 import GoHeader.Oracle.C05
+import GoHeader.Oracle.C19
+import GoHeader.Oracle.C12
 open GoHeader GoHeader.Oracle
 
 def evalLine (line : String) : Option Verdict :=
@@ -31,6 +33,9 @@ def evalLine (line : String) : Option Verdict :=
     | "C13" :: rest => some (evalC13 rest outs)
     | "C05" :: rest => some (evalSession "C05" rest outs)
     | "C18" :: rest => some (evalSession "C18" rest outs)
+    | "C19" :: rest => some (evalC19Flight rest outs)
+    | "C12" :: rest => some (evalConc "C12" rest outs)
+    | "C17" :: rest => some (evalConc "C17" rest outs)
     | _ => some (.bad "unknown property tag")
 
 structure DAcc where
@@ -50,7 +55,25 @@ def storeCov (o : OSt) : String :=
   let m := o.model
   s!"store:{if o.crashes > 0 then s!"crash{min 9 (o.crashes / 10)}x" else ""}{if o.dead.isEmpty then "" else "D"}{if o.nHandlers > 0 then "H" else ""}{if o.mayFail then "F" else ""}{if m.head.isNone then "E" else ""}{if m.pending.isEmpty then "" else "P"}"
 
-partial def loop (h : IO.FS.Stream) (lineNo : Nat) (a : DAcc) (cur : Option (Nat × OSt)) : IO DAcc := do
+/-- the state of the `case … end` block being processed, by property family -/
+inductive Block where
+  | store (o : OSt)
+  | c19 (o : C19St)
+
+def Block.feed : Block → String → Block
+  | .store o, l => .store (storeLine o l)
+  | .c19 o, l => .c19 (c19Line o l)
+
+def Block.done : Block → Verdict
+  | .store o => match o.fail with | some v => v | none => .ok (storeCov o)
+  | .c19 o => c19Finish o
+
+def blockFor (line : String) : Block :=
+  match (splitWs line)[2]? with
+  | some "C19" => .c19 (c19Line {} line)
+  | _ => .store (storeLine {} line)
+
+partial def loop (h : IO.FS.Stream) (lineNo : Nat) (a : DAcc) (cur : Option (Nat × Block)) : IO DAcc := do
   let line ← h.getLine
   if line.isEmpty then
     -- input ended inside a case: the harness died there
@@ -66,14 +89,13 @@ partial def loop (h : IO.FS.Stream) (lineNo : Nat) (a : DAcc) (cur : Option (Nat
     | .prop .. => IO.println s!"{lineNo} {v.render}"; pure { a with prop := a.prop + 1 }
     | .bad .. => IO.println s!"{lineNo} {v.render}"; pure { a with bad := a.bad + 1 }
   if line.startsWith "case " then
-    loop h (lineNo + 1) a (some (lineNo, storeLine {} line))
+    loop h (lineNo + 1) a (some (lineNo, blockFor line))
   else match cur with
   | some (start, o) =>
     if line == "end" then
-      let v := match o.fail with | some v => v | none => .ok (storeCov o)
-      let a ← finish a start v
+      let a ← finish a start o.done
       loop h (lineNo + 1) a none
-    else loop h (lineNo + 1) a (some (start, storeLine o line))
+    else loop h (lineNo + 1) a (some (start, o.feed line))
   | none =>
     match evalLine line with
     | none => loop h (lineNo + 1) a none
